@@ -807,13 +807,30 @@ def run_call(case, drv):
     if outcome.startswith("raises"):
         tags.append(outcome)
     tags.append(f"recipe={case['recipe']}")
-    # effect-analysis verdict vs observation (K for T3b)
+    # effect-analysis verdict vs observation (K for T3b): the Lean checker's verdict on the regenerated
+    # effect program, the translator's own view of it, and what the snapshot shows
     eff = _S.get("effects")
+    if drv is not None and "lean_effects" not in _S:
+        ans = drv.ask(["effects"])
+        _S["lean_effects"] = {row[0]: (row[1] == "true", row[2]) for row in ans} if isinstance(ans, list) else {}
+    lean_eff = _S.get("lean_effects")
+    mutated = any(m_["cls"].startswith("argument-mutated") for m_ in mon)
     if eff is not None and fn in eff:
         v = eff[fn]
         tags.append("effects:" + v["verdict"])
-        if v["verdict"] == "pure" and any(m_["cls"].startswith("argument-mutated") for m_ in mon):
-            k.append(f"{fn}: effect checker says no write reaches an argument object, snapshot differs")
+        if lean_eff is not None and drv is not None:
+            if fn not in lean_eff:
+                if v["verdict"] != "unanalysed":
+                    k.append(f"{fn}: missing from Generated.effects")
+            else:
+                ok, writes = lean_eff[fn]
+                if ok != (v["verdict"] == "pure"):
+                    k.append(f"{fn}: Lean checker says {'pure' if ok else 'writes ' + str(writes)}, translator says {v['verdict']}")
+                if ok and mutated:
+                    k.append(f"{fn}: effect checker proves no write reaches an argument object, but the snapshot of the "
+                             f"argument differs ({mon[-1]['what'][:120]})")
+        elif v["verdict"] == "pure" and mutated:
+            k.append(f"{fn}: effect analysis says no write reaches an argument object, snapshot differs")
     r1, r2 = results[0], results[1] if len(results) > 1 else None
     models = []
     for r in (r1,):
